@@ -64,6 +64,24 @@ def elem_size(t, guest):
 PRE_GHOST = '_Bool g_noabort; _Bool g_backend_nonnull; unsigned long g_expect_example; unsigned long g_expect_malloc_size;'
 
 
+def dyn_keeps(state_unchanged, tag):
+    """dynamic_check leaf with an exceptional post-condition: wherever a check can fail (the abort point; a catchable exception under
+    RLBOX_USE_EXCEPTIONS, after which the caller carries on with the objects it had) the state named by `state_unchanged`
+    (a C condition over ghost snapshots taken by the harness) must still be what it was at entry.  Key 'dynamic_check': one alias per site."""
+    from vlib.unit import _is
+    return ('dynamic_check', _is('dynamic_check'),
+            '__CPROVER_requires(g_noabort ==> $0)\n__CPROVER_requires($0 || (%s)) /*@%s*/\n__CPROVER_ensures($0)\n__CPROVER_assigns()' % (state_unchanged, tag))
+
+
+def trait_inst(name, prop, expr, expect, tag, tier, note=''):
+    """a compile-time fact about the real classes (a type trait evaluated by the real compiler, B-fact) stated as an obligation:
+    the snippet returns the constant, the contract pins it.  Used for facts the extracted C cannot show (special members, ABI class)"""
+    from vlib.unit import Inst
+    return Inst(name, 'int unused_', 'return %s;' % expr, [(tag, '__CPROVER_ensures($ret == %d)' % expect), ('frame', '__CPROVER_assigns()')],
+                '  int in_x; _Bool r = $ROOT(in_x);\n', leaves=[], prop=prop, tier=tier, pre=PRE_GHOST, ret='bool', root_pick=lambda tu, fn: fn,
+                note=note or 'type trait of the real class, computed by g++ in the facts program')
+
+
 def idx_value(kind, idx, arg):
     """C expression (mathint) of an index operand passed by pointer `arg` with the given wrapper kind"""
     if kind == 'plain':
